@@ -110,7 +110,7 @@ def plain_decimal(draw, max_frac=9, ec=None):
     act = active_chars(ec) if ec else ()
     if '.' not in act and max_frac >= 9 and draw(st.integers(0, 7)) == 0:
         # small magnitudes: many leading zeros after the point
-        return '0.' + '0' * draw(st.integers(3, 9)) + draw(st.sampled_from('123456789'))
+        return '0.' + '0' * draw(st.integers(3, 9)) + draw(st.sampled_from('0123456789'))
     s = draw(_PLAIN_INT)
     if '.' not in act and draw(st.booleans()):
         s += '.' + draw(st.text(alphabet='0123456789', min_size=1, max_size=max_frac))
